@@ -159,8 +159,71 @@ def check_machine(ctx, prog, f):
                   'letters, digits, _ : - . and non-ASCII bytes stay out of the error state in %s' % sorted(name_envs),
                   'Xml::decode enters its error state on %s: a tree whose tag or attribute names contain that character is encoded normally but decodes to a null element' % (
                       ', '.join('%r in state %s' % (chr(b) if b < 128 else hex(b), nm) for nm, b in rejected[:4])))
+    check_docs(ctx, prog, f, m, S)
     if not groups:
-        ctx.ok('C07.stack', f['pq'], 'decode:stack safety over all reachable configurations', fwhere(f), '%d configurations, %d transitions: no unsafe popget/top, look-behind within consumed input' % (len(m.configs), m.transitions))
+        ctx.ok('C07.stack', f['pq'], 'decode:stack safety over all reachable configuration', fwhere(f), '%d configurations, %d transitions: no unsafe popget/top, look-behind within consumed input' % (len(m.configs), m.transitions))
+
+
+XML_DOCS = [
+    # (document, expected structure: 'o' element opened, 't' text node appended to the open element, 'c' element closed)
+    (b'<a>x</a>', 'otc'), (b'<a>&amp;</a>', 'otc'), (b'<a>&#65;&lt;</a>', 'otc'), (b'<a>x&gt;y</a>', 'otc'), (b'<a><b/>t</a>', 'ooctc'),
+    (b'<a> <b>u</b> </a>', 'ootcc'), (b'<a k="v">w<c d=\'e\'/></a>', 'otocc'), (b'<a><b>&quot;</b><b>z</b></a>', 'ootcotcc'), (b'<r>\xc3\xa9&#233;</r>', 'otc'),
+]
+
+
+def check_docs(ctx, prog, f, m, S):
+    """C07.docs: a necessary condition of the round trip: for each document of a small corpus (text, entity and character
+    references alone and mixed with text, nested and empty elements, attributes) the decoder machine - run on the document's
+    bytes with the text buffer followed concretely and every flag that only ever takes constant values followed exactly - has a
+    run without error that opens and closes the elements and appends the text nodes in the order the document has them.  If no
+    run does, the tree the real decoder builds lacks a node (a text consisting only of references, say) whatever the untracked
+    data are."""
+    role = 'decode:every document of the corpus yields its elements and text nodes'
+
+    def on_top(mach, env, sn, e):
+        nm = (e.get('pq') or e.get('fn') or '').split('::')[-1]
+        if nm in ('operator<<', 'append') and e.get('a'):
+            a0 = strip(e['a'][0])
+            while a0.get('k') in ('temp', 'cast', 'paren'):
+                a0 = strip(a0['e'])
+            ty = T(mach.f, a0.get('t')).get('rec') or ''
+            env.events.append(('text',) if 'XmlText' in ty or (a0.get('k') == 'construct' and 'XmlText' in (a0.get('cls') or '')) else ('child',))
+    saved = m.d.get('on_top_call')
+    m.d['on_top_call'] = on_top
+    m.d['texts'] = ('b',)
+    bad = None
+    total = 0
+    try:
+        for doc, want in XML_DOCS:
+            try:
+                envs = m.run_text(doc, keep_log=True)
+            except automaton.Stuck as ex:
+                ctx.undecided('C07.docs', f['pq'], role, fwhere(f), 'the abstract machine cannot follow %s: %s' % (doc.decode('latin-1'), ex))
+                return
+            ctx.evaluations += len(doc)
+            total += len(envs)
+            seqs = set()
+            for e in envs:
+                if e.vars.get('state') == S['ERR'] or tuple(e.stacks['elems']) != ('ROOT',):
+                    continue
+                sq = ''
+                for ev in (e.log or ()):
+                    if ev[0] == 'push' and ev[1] == 'elems':
+                        sq += 'o'
+                    elif ev[0] == 'pop' and ev[1] == 'elems':
+                        sq += 'c'
+                    elif ev[0] == 'text':
+                        sq += 't'
+                seqs.add(sq)
+            if want not in seqs:
+                bad = (doc, want, sorted(seqs))
+                break
+    finally:
+        m.d['on_top_call'] = saved
+        m.d['texts'] = ()
+    ctx.check(bad is None, 'C07.docs', f['pq'], role, fwhere(f), '%d documents, %d final configurations' % (len(XML_DOCS), total),
+              'no run of the decoder over %s builds the structure %s (o = element opened, t = text node appended, c = element closed); the runs that end without error give %s: a node of the document is missing from the decoded tree' % (
+                  bad[0].decode('latin-1') if bad else '', bad[1] if bad else '', bad[2] if bad else ''))
 
 
 class XmlMachine(automaton.Machine):
